@@ -8,8 +8,6 @@ import (
 	"strconv"
 	"strings"
 
-	"github.com/pkg/errors"
-
 	"github.com/xelaj/mtproto/internal/mtproto/objects"
 )
 
@@ -85,7 +83,10 @@ func TryExpandError(errStr string) (nativeErrorName string, additionalData any) 
 	case reflect.Int:
 		var err error
 		additionalData, err = strconv.Atoi(trimmedData)
-		check(errors.Wrap(err, "error of parsing expected int value"))
+		if err != nil {
+			// parameter is not an integer, so it's not that specific error: return it as a common one
+			return errStr, nil
+		}
 
 	case reflect.String:
 		additionalData = trimmedData
